@@ -142,6 +142,11 @@ def run_check(pid, tier, seed):
         failures, cerrs, rl = vx.classify(res["diags"], attr)
         if cerrs:
             msg = "; ".join(sorted(set(d.get("message", "")[:200] for d in cerrs))[:4])
+            # the verifier cannot read the edited code; the syntactic frames still can (they look at /repo's AST, not at the
+            # generated file): a frame that fails outright is reported before the check gives up on the proof
+            rc_f = frames_only_verdict(pid, plan, seed)
+            if rc_f is not None:
+                return rc_f
             return finish_undecided_or_replay(pid, tier, seed, t0, "generated file outside Verus' subset / lost construct: " + msg, plan)
         vr = res["json"].get("verification-results", {})
         if vr.get("encountered-vir-error"):
@@ -473,6 +478,23 @@ def run_check(pid, tier, seed):
     if rc == 0:
         print("OK property=%s tier=%s obligations=%d discharged=%d known_findings=%d wall=%.1fs" % (pid, tier, n_obl, n_ok, len(kf_lines), time.time() - t0))
     return rc
+
+
+def frames_only_verdict(pid, plan, seed):
+    """Used when Verus rejects the generated file: hard (non-soft) frame failures are violations in their own right."""
+    if not plan.get("frames"):
+        return None
+    import frames, replaylib
+    fr = frames.run(pid, plan["frames"])
+    bad = [r for r in fr["rows"] if not r["ok"] and not r.get("undecided") and r["name"] not in SOFT_FRAMES]
+    if not bad:
+        return None
+    for row in bad:
+        f = {"message": "frame condition failed: " + row["detail"], "labels": [row["name"]], "label_props": {}, "fn": row["name"], "props": [pid],
+             "where": row.get("where"), "rendered": row["detail"]}
+        rp, found = replaylib.make_replay(pid, row["name"], f, seed, plan)
+        print("VIOLATION property=%s replay=%s%s" % (pid, rp, "" if found else " no-failing-input-found"))
+    return 1
 
 
 def finish_undecided_or_replay(pid, tier, seed, t0, reason, plan):
